@@ -220,8 +220,12 @@ class SubPackets(collections_abc.MutableMapping, Field):
             sp = SignatureSP(packet)
             self['h_' + sp.__class__.__name__] = sp
 
-        if plen - len(packet) == hl:
-            self._hashed_raw = hashed_raw
+        if plen - len(packet) != hl:
+            # the two length octets are part of what is signed: a hashed area whose subpackets do not end
+            # exactly where it says cannot be the one the signature was made over
+            raise ValueError("hashed subpackets do not fit the declared length of the hashed area")
+
+        self._hashed_raw = hashed_raw
 
         uhl = self.bytes_to_int(packet[:2])
         del packet[:2]
